@@ -52,6 +52,8 @@ DOCS = {
   # ~rnd~ is expanded by the harness to 70 000 bytes of noise (letters and digits): it hardly compresses, so one call of an
   # encoder stage has to emit more than any internal buffer of the codec holds
   "A17": [st("html"), st("body"), tx("~rnd~"), st("p"), tx("t"), et("p"), et("body"), et("html")],
+  # a text with a bare '<' FOLLOWED by multi-byte characters (held text + a character cut by the chunk end), two-byte characters in a row
+  "A18": [st("html"), st("body"), st("p"), txlt("1 ", "< 2 caf", "~e~", "~u~", " ~z~"), et("p"), st("div", ' class="x"', True), txlt("a ", "<", "~e~"), et("div"), et("body"), et("html")],
   # upper-case elements carrying the selector's class; a '>' inside a quoted attribute of a target without a selector hit
   "A13": [st("html", upper=True), st("head", upper=True), st("meta", ' CLASS="x"', True, upper=True), et("head", upper=True), st("body", ' data-if="a > b"', upper=True),
           st("div", " title='1>0'"), tx("hi"), et("div"), st("p", ' class="x"', True, upper=True), tx("t"), et("p", upper=True), et("body", upper=True), et("html", upper=True)],
@@ -154,7 +156,7 @@ def main():
     out.append("DocsMessy == {%s}" % ", ".join(n for n in DOCS if n.startswith("B")))
     out.append("FiltersAll == {%s}" % ", ".join(f for f in FILTERS if f != "F29"))
     out.append("FiltersQuick == {F1, F2, F3, F4, F5, F6, F7, F8, F10, F11, F12, F16, F21, F23, F24, F25, F26, F27, F30, F31, F32, F33, F34, F35, F36}")
-    out.append("DocsQuick == {A2, A3, A7, A8, A9, A10, A11, A13, A14, A15, A16, B1, B2, B3, B4, B5, B7, B11, B12, B13, B14, B15}")
+    out.append("DocsQuick == {A2, A3, A7, A8, A9, A10, A11, A18, A13, A14, A15, A16, B1, B2, B3, B4, B5, B7, B11, B12, B13, B14, B15}")
     out.append("CasesQuick == Prod(DocsQuick, FiltersQuick)")
     out.append("CasesAll == Prod(DocsWell \\cup DocsMessy, FiltersAll)")
     out.append("=============================================================================")
